@@ -3,6 +3,7 @@ module verif/harness
 go 1.24.3
 
 require (
+	github.com/rs/xid v1.6.0 // indirect
 	github.com/blevesearch/bleve/v2 v2.5.1
 	github.com/cespare/xxhash v1.1.0
 	github.com/google/uuid v1.6.0
@@ -12,6 +13,7 @@ require (
 )
 
 require (
+	github.com/rs/xid v1.6.0 // indirect
 	github.com/RoaringBitmap/roaring v1.9.4 // indirect
 	github.com/beorn7/perks v1.0.1 // indirect
 	github.com/bits-and-blooms/bitset v1.22.0 // indirect
